@@ -269,7 +269,9 @@ class UnitSystemManager(Singleton):
                 # an empty unit system.
                 units_mapping = {}
 
-        unit_system = self._default_unit_system_class(id, caption, units_mapping, read_only)
+        # Each unit system owns its mapping: systems created from one dict object must not alias
+        # each other (a default unit changed in one would silently change the others).
+        unit_system = self._default_unit_system_class(id, caption, dict(units_mapping), read_only)
         self._unit_systems[id] = unit_system
 
         if self._current is None:
